@@ -200,6 +200,40 @@ from .c14 import plates_post, pl as plates_contract  # noqa
 # facts "every element is a single-plate view / ids ascending / rows covered", not the comprehension that builds them
 plates_contract.inline = False
 plates_contract.returns = TSeq(TAObj("Plate"))
+# filter_dataset_to_unique_treatments applied to a VIEW (score_chunk conditions each candidate plate on the batch): here only "returns
+# some view, changes nothing" is used - what the conditioned view contains does not enter the claims of this module (C14 proves its content
+# for screens; the bounded harness checks it for views)
+from .c14 import fu as _fu_contract  # noqa
+
+
+def _fu_apply(i, a, node, fr):
+    v = a.screen
+    is_view = (isinstance(v, Obj) and "selection_vector" in v.fields) or (isinstance(v, AObj) and v.clsname in ("ScreenSubset", "Plate"))
+    if not is_view:
+        return NotImplemented
+    return AObj("ScreenSubset", i.ctx.fresh("conditioned_view", Ref))
+
+
+_fu_contract.inline = False
+_fu_contract.apply = _fu_apply
+# ScreenSubset.concat / ScreenSubset.combine inside score_chunk's batch branch: used here as "returns some view of a screen or raises
+# ValueError; touches nothing" (C14 proves what they return and that the operands are untouched; the content of the conditioned views is
+# outside this module's claims)
+from .c14 import ct_ as _concat_contract, cb as _combine_contract  # noqa
+
+
+def _opaque_view_or_error(what):
+    def apply(i, a, node, fr):
+        from pyvc.engine import PyRaise, ExcVal
+        if i.ctx.decide(i.ctx.fresh(what + "_refuses", Bool)):
+            raise PyRaise(ExcVal("ValueError"), node)
+        return AObj("ScreenSubset", i.ctx.fresh(what + "_view", Ref))
+    return apply
+
+
+for _c, _w in ((_concat_contract, "concat"), (_combine_contract, "combine")):
+    _c.inline = False
+    _c.apply = _opaque_view_or_error(_w)
 from pyvc.lib.rng import TGenerator  # noqa
 
 abstract_class("PlatePolicy", "batchie.core.PlatePolicy", {})
@@ -448,7 +482,8 @@ scr_abs.apply = _scorer_apply
 SCK = "batchie.scoring.main.score_chunk"
 sk = contract(SCK, params=[("scorer", TAObj("Scorer")), ("thetas", TAObj("ThetaHolderTok")), ("screen", TAObj("Screen")), ("distance_matrix", TAObj("DistTok")),
                            ("rng", TGenerator()), ("progress_bar", TBool), ("n_chunks", TInt), ("chunk_index", TInt), ("batch_plate_ids", TNone)])
-sk.variants = [("no_batch", sk.params)]
+sk.variants = [("no_batch", sk.params), ("with_batch", sk.params[:-1] + [("batch_plate_ids", TSeq(TInt))])]
+sk.raises("ValueError", lambda a: bool_(a.batch_plate_ids is not None), iff=False)  # batch branch: concat of no plates / foreign views refuse
 sk.requires(lambda a: screen_shape_wf(a.screen) + plate_consistency(a.screen) + [a.n_chunks >= 1, a.chunk_index >= 0, a.chunk_index < a.n_chunks])
 
 
@@ -465,7 +500,18 @@ def _sk_post(a, ret, st):
     hp, hs = F(ret, "plate_ids"), F(ret, "scores")
     sm = call["scores"]
     k, j = z3.Int("k!skp"), z3.Int("j!skp")
-    return [("chunk_is_its_section_of_the_sorted_unobserved_plates", z3.And(bool_(base is U or base.cols.eq(U.cols)), lo == elo, hi == ehi)),
+    nrw = nrows(a.screen)
+    pids_ = G(a.screen, "_plate_ids").data
+    jj_ = z3.Int("j!skc")
+    return [("listed_plates_are_unobserved_and_not_in_the_batch", z3.ForAll([jj_], z3.Implies(z3.And(jj_ >= 0, jj_ < U.length), z3.And(
+                z3.Not(pobs_fn(z3.Select(U.cols, jj_))), z3.Not(in_batch(a, pid_fn(z3.Select(U.cols, jj_)))), __import__("contracts.c14", fromlist=["x"]).is_plate_view(z3.Select(U.cols, jj_)),
+                same_obj_term(G(AObj("Plate", z3.Select(U.cols, jj_)), "screen"), a.screen))), patterns=[z3.Select(U.cols, jj_)])),
+            ("every_unobserved_non_batch_row_is_in_a_listed_plate", Forall([("r!skc", Int)], lambda rr: z3.Implies(z3.And(rr >= 0, rr < nrw, cand_row(a, rr)), z3.Exists([jj_], z3.And(
+                jj_ >= 0, jj_ < U.length, z3.Select(G(AObj("Plate", z3.Select(U.cols, jj_)), "selection_vector").data, rr)))), patterns=lambda rr: [z3.Select(pids_, rr)],
+                hints=lambda r0: [z3.Select(pids_, r0), z3.Select(G(a.screen, "_observation_mask").data, r0)])),
+            ("listed_plates_have_strictly_increasing_ids", z3.ForAll([jj_, k], z3.Implies(z3.And(jj_ >= 0, jj_ < k, k < U.length), pid_fn(z3.Select(U.cols, jj_)) < pid_fn(z3.Select(U.cols, k))),
+                                                                     patterns=[z3.MultiPattern(z3.Select(U.cols, jj_), z3.Select(U.cols, k))])),
+            ("chunk_is_its_section_of_the_sorted_unobserved_plates", z3.And(bool_(base is U or base.cols.eq(U.cols)), lo == elo, hi == ehi)),
             ("table_is_full_with_one_row_per_plate_of_the_section", z3.And(*csh_full(ret), hp.shape[0] == n)),
             ("every_plate_of_the_section_has_a_row", Forall([("k!skq", Int)], lambda kk: z3.Implies(z3.And(kk >= lo, kk < hi), z3.Exists([j], z3.And(
                 j >= 0, j < n, z3.Select(hp.data, j) == pid_fn(z3.Select(U.cols, kk))))),
@@ -489,5 +535,16 @@ def _sk_inv(v):
                 patterns=[z3.Select(hp.data, j)]))]
 
 
+def _sk_inv0(v):
+    """building the dictionary of conditioned views: after `it` plates the keys are the ids of the first `it` plates of the chunk, in order"""
+    m = v.plates_to_score
+    ch = v.chunk_plates.seq
+    j = z3.Int("j!sk0")
+    return [("one_key_per_plate_so_far", m.keys.length == v.it),
+            ("keys_are_the_plate_ids_in_order", z3.ForAll([j], z3.Implies(z3.And(j >= 0, j < v.it), z3.Select(m.keys.cols, j) == pid_fn(z3.Select(ch.cols, j))),
+                                                         patterns=[z3.Select(m.keys.cols, j)]))]
+
+
+sk.loop("for#0", invariant=_sk_inv0, types={"plates_to_score": (Int, Ref)})
 sk.loop("for#1", invariant=_sk_inv)
 sk.ensures("chunk", _sk_post)
